@@ -30,6 +30,7 @@ def run(chk: Check) -> None:
     run_crawl_order(chk, ix)
     run_abspath_normalised(chk, ix)
     run_verify_module_is_universal(chk, ix)
+    run_stem_claimed_by_sources_only(chk, ix)
     r1 = chk.rule("R18.1", "load_graph: every insertion of a State into the graph is dominated by the duplicate test for its kind (module id already in graph / file already seen under another id), whose clash branch reports a blocker and raises", floor=5)
     lg = ix.func("mypy.build.load_graph")
     g = CFG(lg.node)
@@ -214,3 +215,30 @@ def run_verify_module_is_universal(chk: Check, ix) -> None:
         r5.violation(key, f.loc(), f"the answer is derived from {mx[0].name}(), which keeps the *highest* level that has an __init__ (an assignment inside the loop over the levels, no early exit): `a/__init__.py` + `a/b/c.py` without `a/b/__init__.py` passes, so with --no-namespace-packages the name a.b.c resolves to a file the crawl maps to module `c` (`Source file found twice under different module names`, and `-p a` silently accepts the import)")
     else:
         raise AnalysisError("verify_module: neither a level-by-level check nor a recognised maximum; the rule cannot classify the new shape")
+
+
+def run_stem_claimed_by_sources_only(chk: Check, ix) -> None:
+    """R18.6: a sub-directory hides the module of the same name only if it contributes sources."""
+    from ..cfg import branch_conditions
+    r6 = chk.rule("R18.6", "SourceFinder.find_sources_in_dir lets a sub-directory `X/` take precedence over `X.py` / `X.pyi` in the same directory by putting the name into `seen`. It does so only when the recursive walk of the sub-directory returned sources (`if sub_sources:`): a data directory, or one whose Python files are all excluded, must not make directory mode skip `X.py`, which the file list and `-p` would check", floor=1)
+    f = ix.func("mypy.find_sources.SourceFinder.find_sources_in_dir")
+    par = f.module.parents()
+    adds = [c for c in ast.walk(f.node) if isinstance(c, ast.Call) and isinstance(c.func, ast.Attribute) and c.func.attr == "add" and norm(c.func.value) == "seen"]
+    dir_adds = []
+    for c in adds:
+        st = c
+        while not isinstance(st, ast.stmt):
+            st = par[st]
+        pos, neg = branch_conditions(par, f.node, st)
+        if any("isdir" in norm(t) for t in pos):
+            dir_adds.append((c, st, pos))
+    if not dir_adds:
+        raise AnalysisError("find_sources_in_dir: `seen.add(<directory name>)` under the isdir test was not found")
+    recursive_locals = {norm(a.targets[0]) for a in ast.walk(f.node) if isinstance(a, ast.Assign) and len(a.targets) == 1 and isinstance(a.value, ast.Call) and call_name(a.value) == "find_sources_in_dir"}
+    for c, st, pos in dir_adds:
+        key = "find_sources_in_dir: a sub-directory claims its stem only when it yielded sources"
+        ok = any(isinstance(t, ast.Name) and t.id in recursive_locals for t in pos) or any(isinstance(x, ast.Name) and x.id in recursive_locals for t in pos if "isdir" not in norm(t) for x in ast.walk(t))
+        if ok:
+            r6.ok(key, f.loc(c))
+        else:
+            r6.violation(key, f.loc(c), f"`{norm(c)}` is reached for every sub-directory (conditions: {[norm(t)[:50] for t in pos]}): `pkg/fixtures/` holding only data files makes `mypy pkg` skip `pkg/fixtures.py` silently, while `mypy pkg/fixtures.py ...` and `mypy -p pkg` check it")
